@@ -378,7 +378,9 @@ REF_POLY = ["ExternalReference", "ModelReference"]
 def can_be_empty(spec_kind: str) -> bool:
     """SPEC: may the attribute's lexical token be the empty string?"""
     k = spec_kind[1:] if spec_kind[0] == "o" else spec_kind
-    head = k.split(":")[0].split("=")[0]
+    if k.startswith("typed="):          # fixed type (xs:dateTime, xs:duration): the literal is never empty
+        return False
+    head = k.split(":")[0]
     return head in ("str0", "typed", "bytes")
 
 
